@@ -198,6 +198,11 @@ func c11World(t *testing.T, r *simcore.Run) any {
 					r.Fail("C11", "reply/cookie-keys", "a fresh cookie opens to other session keys")
 					return
 				}
+				// (sealed under the key the provider currently hands out: usable for two more days)
+				if d, ok := cookieUsableFor(tr.provider(), f.body); !ok || d < 48*time.Hour-time.Minute {
+					r.Fail("C11", "reply/cookie-lifetime", "a cookie handed out now can be opened for only %v more (the statement of C12 promises two days)", d)
+					return
+				}
 			}
 			want := lastReq.ncookies + lastReq.nph
 			if n != want {
@@ -233,7 +238,9 @@ func c11World(t *testing.T, r *simcore.Run) any {
 				tr.fetcher().VerifForget()
 				r.Fault("client-restart")
 			}
-			if restarts && tp.Bool(1, 20, "restart?") {
+			// (more often after a long idle gap: the host was down, or the service is started again;
+			// the key exchange that follows then meets a server whose keys have rotated meanwhile)
+			if (restarts && tp.Bool(1, 20, "restart?")) || (gaps && gap >= time.Hour && tp.Bool(1, 2, "restart-after-gap?")) {
 				// the client process is restarted: nothing of its session survives (there is no
 				// durable state), the next attempt performs a complete key exchange
 				tr.fetcher().VerifForget()
@@ -251,6 +258,13 @@ func c11World(t *testing.T, r *simcore.Run) any {
 			if tr.keyExchanges() != ke0 {
 				rekeys++
 				r.Probe("re-keyed")
+				// the cookies of a key exchange are sealed under the provider's current key as well
+				for _, ck := range tr.fetcher().VerifData().Cookie {
+					if d, ok := cookieUsableFor(tr.provider(), ck); ok && d < 48*time.Hour-time.Hour {
+						r.Fail("C11", "key-exchange/cookie-lifetime", "a cookie issued by the key exchange just now can be opened for only %v more", d)
+						return
+					}
+				}
 			}
 			line := fmt.Sprintf("attempt %d: pool %d -> %d, dropReq=%v dropResp=%v err=%v", i, before, after, dropReq[i], dropResp[i], err != nil)
 			hist = append(hist, line)
